@@ -186,6 +186,22 @@ class AttentionH(Harness):
                 for b in range(B):
                     for i in range(Vs):
                         viol.append((f"output ({b},{i}) changes under the position permutation {perm}", s_not(s_eq_total(on[b][i], o2[b][i]))))
+        elif prop == "kbcast":  # keys/values/mask shared by the batch (batch dimension of size 1) == explicitly expanded
+            def shared(kc, vc, mc):
+                kf = [x for t in range(T) for x in kc[t][0]]
+                vf = [x for t in range(T) for x in vc[t][0]]
+                mf = [mc[t][0] for t in range(T)]
+                shp = (lambda last: (T, 1, last)) if c["dim"] == 0 else (lambda last: (1, T, last))
+                ms = (T, 1) if c["dim"] == 0 else (1, T)
+                return att(qt, eng.tensor(kf, shp(Q), torch.float32), eng.tensor(vf, shp(Vs), torch.float32), eng.tensor(mf, ms, torch.bool))
+            o1 = shared(k, v, m).nested()
+            ke = [[k[t][0] for _ in range(B)] for t in range(T)]
+            ve = [[v[t][0] for _ in range(B)] for t in range(T)]
+            me = [[m[t][0] for _ in range(B)] for t in range(T)]
+            o2 = run(ke, ve, me).nested()
+            for b in range(B):
+                for i in range(Vs):
+                    viol.append((f"output ({b},{i}): keys shared by the batch differ from explicitly expanded keys", s_not(s_eq_total(o1[b][i], o2[b][i]))))
         else:  # broadcasting a single query against batched keys == explicit expand
             q1 = eng.tensor(q[0], (1, Q), torch.float32)
             qe = eng.tensor([x for _ in range(B) for x in q[0]], (B, Q), torch.float32)
@@ -242,6 +258,12 @@ class AttentionH(Harness):
                 p = list(perm)
                 if not torch.allclose(out, run(k[p], v[p], m[p]), atol=1e-9):
                     failures.append(f"output changes under permutation {perm}")
+        elif prop == "kbcast":
+            k1, v1, m1 = k[:, :1], v[:, :1], m[:, :1]
+            o1 = run(k1, v1, m1)
+            o2 = run(k1.expand(T, B, Q), v1.expand(T, B, Vs), m1.expand(T, B))
+            if not torch.allclose(o1, o2, atol=1e-9):
+                failures.append(f"keys shared by the batch differ from explicitly expanded keys (max abs difference {(o1 - o2).abs().max().item():.3g})")
         else:
             o1 = run(k, v, m, q[:1])
             o2 = run(k, v, m, q[:1].expand(B, Q))
@@ -350,7 +372,7 @@ META = dict(
         "softmax abstracted (convexity: arbitrary weights >=0 summing to one and zero at masked positions; equalities: DIV(E(e_i), sum_j E(e_j)) with E, DIV "
         "uninterpreted), products of two symbolic reals inside the score functions and tanh uninterpreted.  Asserted: every output coordinate is "
         "finite and neither below nor above all kept values (convex combination); replacing keys/values at masked positions by fresh symbols leaves the output "
-        "term equal; consistently permuting positions leaves it equal; a single query broadcast against batched keys equals the explicitly expanded query; "
+        "term equal; consistently permuting positions leaves it equal; a single query broadcast against batched keys equals the explicitly expanded query, and keys/values/mask shared by the batch (batch dimension 1) equal the explicitly expanded ones; "
         "multi-headed attention equals project / per-head single-head attention / concatenate / project, with a bias on exactly the projections for which one "
         "was requested."),
     bounds=dict(quick="T=3 positions (T=2 for multi-head), batch 2, sizes 2, sequence dimension 0 and 1, dot/general/concat, 1-3 heads, the bias flags one at a time",
@@ -367,7 +389,7 @@ def tasks(tier):
     ts = []
     q = tier == "quick"
     for kind in ("dot", "general", "concat"):
-        for prop in ("convex", "blind", "perm", "bcast"):
+        for prop in ("convex", "blind", "perm", "bcast", "kbcast"):
             for dim in (0, 1):
                 if q and dim == 1 and prop in ("perm",):
                     continue
